@@ -90,6 +90,9 @@ func sameValueD(a, b ssa.Value, d int) bool {
 	if a == b {
 		return true
 	}
+	if sameCellLoads(a, b) {
+		return true
+	}
 	a, b = Unwrap(ForwardLoad(a)), Unwrap(ForwardLoad(b))
 	if a == b {
 		return true
@@ -103,9 +106,12 @@ func sameValueD(a, b ssa.Value, d int) bool {
 			return sameValueD(fa.X, fb.X, d+1)
 		}
 		// loads of the same spilled parameter cell
-		if aa, ok := la.X.(*ssa.Alloc); ok && la.X == lb.X {
-			_ = aa
-			return true
+		// loads of the same cell (spilled / captured parameter)
+		if la.X == lb.X {
+			switch la.X.(type) {
+			case *ssa.Alloc, *ssa.FreeVar, *ssa.Parameter:
+				return true
+			}
 		}
 	}
 	return false
@@ -134,4 +140,18 @@ func StoresToField(fn *ssa.Function, f *types.Var) []*ssa.Store {
 		}
 	})
 	return out
+}
+
+// sameCellLoads: both are loads of the same local cell (Alloc / captured cell).
+func sameCellLoads(a, b ssa.Value) bool {
+	la, ok1 := a.(*ssa.UnOp)
+	lb, ok2 := b.(*ssa.UnOp)
+	if !ok1 || !ok2 || la.Op != token.MUL || lb.Op != token.MUL || la.X != lb.X {
+		return false
+	}
+	switch la.X.(type) {
+	case *ssa.Alloc, *ssa.FreeVar:
+		return true
+	}
+	return false
 }
